@@ -252,6 +252,17 @@ def parseI : Nat → Bytes → Option (List Script × List Bytes × Bytes)
         | some (l, sp, r') => some (p.script :: l, p.spans ++ sp, r')
 end
 
+/-- the Go struct `parseScript` builds for a type id (the `switch id` of `UnmarshalCBOR`) -/
+def ctorName (id : Nat) : Option String :=
+  if id = 0 then some "NativeScriptPubkey"
+  else if id = 1 then some "NativeScriptAll"
+  else if id = 2 then some "NativeScriptAny"
+  else if id = 3 then some "NativeScriptNofK"
+  else if id = 4 then some "NativeScriptInvalidBefore"
+  else if id = 5 then some "NativeScriptInvalidHereafter"
+  else if id = 6 then some "NativeScriptRequireGuard"
+  else none
+
 /-- a whole byte string as one script (what `NativeScript.UnmarshalCBOR` is handed) -/
 def decode (b : Bytes) : Option Parsed :=
   match parseScript (2 * b.length + 2) b with
